@@ -187,6 +187,9 @@ func genServices(r *Rand, d model.Doc, n int) []model.ServiceCfg {
 		if r.Chance(5) {
 			s.Match = append(s.Match, model.ValueCfg{Name: "protocol"}) // presence only
 		}
+		if r.Chance(12) {
+			s.Name = " " + s.Name + " " // the authorizer trims names: padding is legal
+		}
 		nv := 1 + r.Intn(3)
 		for k := 0; k < nv; k++ {
 			v := model.ValueCfg{Name: PickOf(r, "priv-lvl", "shell:roles", "local-user-name", "allow-commands", "idletime"),
